@@ -95,6 +95,11 @@ def make_pypred(real, yp, name, arity, rows, style, yv, log, fault):
                 return
             yield from body(args)
         return f, -1
+    if style == 'explicit':
+        # a generic table-driven closure registered with an explicit arity (its signature says nothing)
+        def g(*args):
+            yield from body(args)
+        return g, arity
     # fixed signature with `arity` positional parameters
     params = ','.join('a%d' % i for i in range(arity))
     ns = {'body': body}
